@@ -192,7 +192,11 @@ func c10PersonFacts(p c10Person, marker string, detail uint32) []*c10Fact {
 		// the marker is a custom tag: it gives the record neither a name nor a date
 		switch p.Blank {
 		case 1:
-			fs = append(fs, c10F("SEX", p.Sex), c10F("NOTE", "unknown parent, placeholder "+strconv.Itoa(p.Key)))
+			var sk []*c10Fact
+			if detail&1 == 1 {
+				sk = []*c10Fact{c10F("NOTE", "assumed", c10F("SOUR", "Family tradition"))}
+			}
+			fs = append(fs, c10F("SEX", p.Sex, sk...), c10F("NOTE", "unknown parent, placeholder "+strconv.Itoa(p.Key)))
 		case 3:
 			fs = append(fs, c10F("NOTE", "not identified "+strconv.Itoa(p.Key)), c10F("SOUR", "Family bible", c10F("PAGE", strconv.Itoa(p.Key%9+1))))
 		}
@@ -200,11 +204,34 @@ func c10PersonFacts(p c10Person, marker string, detail uint32) []*c10Fact {
 	}
 	name := fmt.Sprintf("%s /%s/", p.Given, p.Surn)
 	fs = append(fs, c10F("NAME", name, pick(0, []*c10Fact{c10F("GIVN", p.Given), c10F("SURN", p.Surn), c10F("NICK", p.Given[:2])})...))
-	fs = append(fs, c10F("SEX", p.Sex))
+	// sub-records below lines of the specialised kinds (SEX, DATE, PLAC, MAP, _UID ...), two and
+	// three levels down; which of them are present is decided by a second mask
+	d2 := (detail ^ detail>>13) * 2654435761
+	pick2 := func(shift uint, kids []*c10Fact) []*c10Fact {
+		switch (d2 >> shift) & 3 {
+		case 0:
+			return nil
+		case 1:
+			return kids
+		case 2:
+			return kids[:1]
+		}
+		return kids[len(kids)-1:]
+	}
+	ks := strconv.Itoa(p.Key%9 + 1)
+	fs = append(fs, c10F("SEX", p.Sex, pick2(0, []*c10Fact{
+		c10F("SOUR", "Census 1881", c10F("PAGE", "12"), c10F("DATA", "", c10F("TEXT", "sex as enumerated "+ks))),
+		c10F("NOTE", "sex from register "+ks)})...))
 	bd := fmt.Sprintf("%d %s %d", p.BD, c10Mon[p.BM-1], p.BY)
 	page := c10F("PAGE", strconv.Itoa(10+p.Key%80), c10F("NOTE", "entry "+strconv.Itoa(p.Key%7)))
 	sour := c10F("SOUR", "Parish register of "+p.Place, pick(14, []*c10Fact{page, c10F("QUAY", "2")})...)
-	fs = append(fs, c10F("BIRT", "", pick(7, []*c10Fact{c10F("DATE", bd), c10F("PLAC", p.Place), c10F("NOTE", "born in "+p.Place), sour})...))
+	fs = append(fs, c10F("BIRT", "", pick(7, []*c10Fact{
+		c10F("DATE", bd, pick2(2, []*c10Fact{c10F("TIME", "0"+ks+":30"), c10F("NOTE", "date from register", c10F("SOUR", "Register "+ks))})...),
+		c10F("PLAC", p.Place, pick2(4, []*c10Fact{
+			c10F("FORM", "City, County"),
+			c10F("MAP", "", c10F("LATI", "N5"+ks+".1"), c10F("LONG", "W1."+ks))})...),
+		c10F("NOTE", "born in "+p.Place, pick2(6, []*c10Fact{c10F("SOUR", "Family letter", c10F("PAGE", ks))})...),
+		sour})...))
 	if p.DY != 0 {
 		dv := ""
 		if detail>>28&1 == 1 && strings.HasPrefix(marker, "L") {
@@ -218,7 +245,7 @@ func c10PersonFacts(p c10Person, marker string, detail uint32) []*c10Fact {
 		fs = append(fs, c10F("OCCU", p.Occu, pick(25, []*c10Fact{c10F("DATE", strconv.Itoa(p.BY+25))})...))
 	}
 	if p.UID != "" {
-		fs = append(fs, c10F("_UID", p.UID))
+		fs = append(fs, c10F("_UID", p.UID, pick2(8, []*c10Fact{c10F("NOTE", "assigned by program", c10F("DATE", "1 JAN 2001"))})...))
 	}
 	fs = append(fs, c10F("_MARK", marker))
 	return fs
@@ -571,6 +598,10 @@ func c10Merge(l, r *gedcom.Document, via string, minSim float64) (out *gedcom.Do
 		return doc, nil
 	}
 	options := gedcom.NewIndividualNodesCompareOptions()
+	if i := strings.Index(via, "-jobs="); i >= 0 {
+		// Jobs is an option like the others: the result must not depend on it
+		options.Jobs, _ = strconv.Atoi(via[i+len("-jobs="):])
+	}
 	if minSim < 0 { // "always trust the pointer"
 		options.SimilarityOptions.PreferPointerAbove = 0
 	}
@@ -1045,7 +1076,7 @@ func init() {
 			case 5:
 				minSim = 0.4
 			}
-			c10Run(c, l, r, shape, via, minSim)
+			c10Run(c, l, r, shape, c10Jobs(via, k/7), minSim)
 			if k%5 == 0 {
 				c10Wave2(c, k/5)
 			}
